@@ -372,7 +372,7 @@ theorem pinv_step {st : St} (h : PInv st) (ev : Ev) : PInv (step st ev) := by
         · intro k _; simp [pushVer]
         · intro k heq; omega
         · intro k; simp [pushVer]
-  | deliver =>
+  | deliver tnow =>
     simp only [step]
     split
     · exact h
@@ -387,10 +387,10 @@ theorem pinv_step {st : St} (h : PInv st) (ev : Ev) : PInv (step st ev) := by
       | reply k c v vsz raw =>
         simp only [handle]
         obtain ⟨a, b, c', d⟩ := hqueue.1.1 k c v vsz raw rfl
-        refine ⟨Lru.inv_update h.store k c v vsz raw, ?_, hqueue.2, h.floorLe, ?_⟩
+        refine ⟨Lru.inv_update h.store k c v vsz (Lru.serverRaw tnow raw), ?_, hqueue.2, h.floorLe, ?_⟩
         · intro e he hp
           dsimp only at he ⊢
-          rcases Lru.update_completed st.store h.store k c v vsz raw e he hp with hold | hnew
+          rcases Lru.update_completed st.store h.store k c v vsz (Lru.serverRaw tnow raw) e he hp with hold | hnew
           · obtain ⟨a', b', c'', d', l⟩ := hent e hold hp
             refine ⟨a', b', ?_, d', List.mem_append_left _ l⟩
             intro hv
@@ -403,7 +403,7 @@ theorem pinv_step {st : St} (h : PInv st) (ev : Ev) : PInv (step st ev) := by
             rw [h1, h2, h3]
             exact ⟨a, b, c', d, by simp⟩
         · intro hc
-          have o := Lru.update_cases st.store k c v vsz raw
+          have o := Lru.update_cases st.store k c v vsz (Lru.serverRaw tnow raw)
           cases o with
           | closed hc' hs hp => exact (hopen hc').elim
           | absent hc' hf hs hp => rw [hs] at hc; exact (hopen hc).elim
@@ -505,7 +505,7 @@ theorem floor_mono_step (st : St) (ev : Ev) (k : Bytes) : st.floor k ≤ (step s
   | write k' => simp only [step]; split <;> exact Nat.le_refl _
   | flushall => simp only [step]; split <;> exact Nat.le_refl _
   | disconnect err => exact Nat.le_refl _
-  | deliver =>
+  | deliver tnow =>
     simp only [step]
     split
     · exact Nat.le_refl _
